@@ -1219,11 +1219,17 @@ func (sdb *DbSqlite) userCheck(email, password string) (data.Nodes, error) {
 		}
 
 		for _, e := range edges {
-			// make sure edge is not tombstone
+			// skip deleted edges -- the node may still be attached
+			// somewhere else (mirrored or moved)
+			deleted := false
 			for _, p := range e.Points {
 				if p.Type == data.PointTypeTombstone && p.Value != 0 {
-					return false, nil
+					deleted = true
 				}
+			}
+
+			if deleted {
+				continue
 			}
 
 			if e.Up == "root" {
